@@ -104,6 +104,25 @@ class Aux:
         self.rows = np.array([1, 0, 2][:m])
         self.cols = np.array([0, 2, 1][:n])
         self.arrays = [self.x, self.X, self.y, self.Y, self.x0, self.X0, self.v, self.Pm, self.rows, self.cols]
+        # caller-owned algorithm objects, shared by every operation of a history (an options object is a value too: using it
+        # for one call must not change what the next call with the same object does)
+        from cola import linalg as L
+        self.alg_lanczos = L.Lanczos(start_vector=self.v, max_iters=25, tol=1e-10, key=5)
+        self.alg_arnoldi = L.Arnoldi(start_vector=self.v, max_iters=25, tol=1e-10, key=5)
+        self.alg_cg = L.CG(tol=1e-8, max_iters=20, x0=self.X0, P=ops.Dense(self.Pm))
+        self.alg_gmres = L.GMRES(tol=1e-8, max_iters=6, x0=self.X0)
+        self.alg_hutch = L.Hutch(key=3, max_iters=2, tol=0.5)
+        self.alg_auto = L.Auto(tol=1e-9, max_iters=50, key=11)
+        self.algs = [self.alg_lanczos, self.alg_arnoldi, self.alg_cg, self.alg_gmres, self.alg_hutch, self.alg_auto]
+
+    def alg_fields(self):
+        def enc(v):
+            if isinstance(v, np.ndarray):
+                return array_hash(v)
+            if isinstance(v, ops.LinearOperator):
+                return type(v).__name__ + ":" + array_hash(np.asarray(v.to_dense()))
+            return repr(v)
+        return [[type(a).__name__] + sorted((k, enc(v)) for k, v in vars(a).items()) for a in self.algs]
 
 
 def alphabet():
@@ -130,12 +149,20 @@ def alphabet():
         "to_dtype": (None, lambda A, a: A.to(None, dtype=np.complex128)),
         "flatten_unflatten": (None, lambda A, a: (lambda f: f[1](f[0]))(A.flatten())),
         "inv_solve": (sq, lambda A, a: L.inv(A) @ a.x), "solve": (sq, lambda A, a: L.solve(A, a.X)),
-        "inv_cg": ("psd", lambda A, a: L.inv(A, L.CG(tol=1e-8, max_iters=20, x0=a.X0, P=ops.Dense(a.Pm))) @ a.X),
-        "inv_gmres": (sq, lambda A, a: L.inv(A, L.GMRES(tol=1e-8, max_iters=6, x0=a.X0)) @ a.X),
+        "inv_cg": ("psd", lambda A, a: L.inv(A, a.alg_cg) @ a.X),
+        "inv_gmres": (sq, lambda A, a: L.inv(A, a.alg_gmres) @ a.X),
+        "solve_auto_obj": (sq, lambda A, a: L.solve(A, a.X, a.alg_auto)),
+        "lanczos_obj": ("psd", lambda A, a: a.alg_lanczos(A)[:2]), "arnoldi_obj": (sq, lambda A, a: a.alg_arnoldi(A)[:2]),
+        "eig_lanczos_obj": ("psd", lambda A, a: L.eig(A, 2, "LM", a.alg_lanczos)), "eig_arnoldi_obj": (sq, lambda A, a: L.eig(A, 2, "LM", a.alg_arnoldi)),
+        "exp_lanczos_obj": ("psd", lambda A, a: L.exp(A, a.alg_lanczos) @ a.x), "sqrt_arnoldi_obj": ("psd", lambda A, a: L.sqrt(A, a.alg_arnoldi) @ a.x),
+        "pow_neg1_lanczos_obj": ("psd", lambda A, a: L.pow(A, -1, a.alg_lanczos) @ a.x),
+        "pow_neg1_arnoldi_obj": (sq, lambda A, a: L.pow(A, -1, a.alg_arnoldi) @ a.x),
+        "svd_lanczos_obj": (sq, lambda A, a: svd(A, 2, "LM", a.alg_lanczos)),
+        "slogdet_auto_obj": (sq, lambda A, a: L.slogdet(A, a.alg_auto, a.alg_auto)),
         "cg": ("psd", lambda A, a: cg(A, a.x, x0=a.x0, P=ops.Dense(a.Pm), tol=1e-8, max_iters=20)[0]),
         "gmres": (sq, lambda A, a: gmres(A, a.x, x0=a.x0, max_iters=5, tol=1e-8)[0]),
         "pinv": (None, lambda A, a: L.pinv(A) @ a.y), "slogdet": (sq, lambda A, a: L.slogdet(A)), "diag": (sq, lambda A, a: L.diag(A, 1)),
-        "trace": (sq, lambda A, a: L.trace(A)), "hutch": (sq, lambda A, a: L.diag(A, 0, L.Hutch(key=3, max_iters=2, tol=0.5))),
+        "trace": (sq, lambda A, a: L.trace(A)), "hutch": (sq, lambda A, a: L.diag(A, 0, a.alg_hutch)),
         "exp": (sq, lambda A, a: L.exp(A) @ a.x), "sqrt": ("psd", lambda A, a: L.sqrt(A) @ a.x), "pow2": (sq, lambda A, a: L.pow(A, 2) @ a.x),
         "eig": (sq, lambda A, a: L.eig(A, 2, "LM", L.Eig())), "svd": (None, lambda A, a: svd(A, 2)),
         "cholesky": ("psd", lambda A, a: cholesky(A).to_dense()), "plu": (sq, lambda A, a: [f.to_dense() for f in plu(A)]),
@@ -181,7 +208,7 @@ def result_hash(x):
 def snapshot(A, owned, aux):
     leaves = [x for x in A.flatten()[0]]
     return {
-        "owned": [array_hash(x) for x in owned], "aux": [array_hash(x) for x in aux.arrays],
+        "owned": [array_hash(x) for x in owned], "aux": [array_hash(x) for x in aux.arrays], "algs": aux.alg_fields(),
         "dense": array_hash(np.asarray(A.to_dense())), "annotations": sorted(map(str, A.annotations)), "shape": tuple(A.shape),
         "dtype": str(np.dtype(A.dtype)), "leaves": [array_hash(x) if isinstance(x, np.ndarray) else repr(type(x)) for x in leaves],
     }
@@ -261,7 +288,10 @@ def run_case(ctx, case):
         preds = {"member": case["member"], "op": name, "complex": case["dt"] == "c16"}
         ctx.check("caller-arrays-bit-identical", not [c for c in changed if c in ("owned", "aux")], site=name, preds=preds,
                   detail={"changed": changed, "history": case["ops"], "step": i})
-        ctx.check("operator-unchanged", not [c for c in changed if c not in ("owned", "aux")], site=name, preds=preds,
+        ctx.check("algorithm-objects-unchanged", "algs" not in changed, site=name, preds=preds,
+                  detail={"history": case["ops"], "step": i, "before": [a[:8] for a, b in zip(s0["algs"], s1["algs"]) if a != b][:2],
+                          "after": [b[:8] for a, b in zip(s0["algs"], s1["algs"]) if a != b][:2]})
+        ctx.check("operator-unchanged", not [c for c in changed if c not in ("owned", "aux", "algs")], site=name, preds=preds,
                   detail={"changed": changed, "history": case["ops"], "step": i})
         if changed:
             return
